@@ -98,12 +98,12 @@ def make_h(tier):
         msi = ctx.int("max_small_integer", 1)
         nlit = ctx.pick("nliterals", (1, 2))
         lines, lits, allowed = [], [], [424242]
-        if ctx.flag("with_non_numeric"):
+        if (ctx.flag("with_non_numeric") if nlit == 1 else True):
             lines += NON_NUMERIC[lang] + [""]
         for i in range(nlit):
-            spells = SPELL[lang] if i == 0 else SPELL[lang][:3]
+            spells = SPELL[lang] if i == 0 else SPELL[lang][1:3]
             text, value, is_int = ctx.pick(f"lit{i}", spells)
-            cname = ctx.pick(f"ctx{i}", tuple(CTX[lang]) if i == 0 else tuple(CTX[lang])[:2])
+            cname = ctx.pick(f"ctx{i}", tuple(CTX[lang]) if i == 0 else tuple(CTX[lang])[:1])
             tmpl, exempt = CTX[lang][cname]
             in_allowed = ctx.flag(f"allowed{i}")
             if in_allowed:
